@@ -194,8 +194,9 @@ example : ∃ c, newChunkFromStorage (fun _ => [9]) (fun _ => some []) [9] [1] [
 /-- **regenerated obligation**: every store backend builds the chunk it returns with
     `NewChunkFromStorage(id, bytes, its converters, its SkipVerify option)` for the requested `id`, returns
     that call's result directly, and has no other way of returning a chunk (no memo, no cache of "already
-    verified" IDs); the casync-protocol client always verifies; the constructor itself compares the digest
-    of the decoded data with the requested ID unless told to skip -/
+    verified" IDs); the casync-protocol client always verifies.  (The constructor itself is compared with the
+    model exhaustively — `chunk.fromstorage` — rather than by its spelling: `Gen.ctorFromStorageBody` is recorded
+    for the reader, not required.) -/
 theorem gen_backends_construct_verified :
     Gen.ctorLocal = ["id", "converters", "SkipVerify", "returned"] ∧
     Gen.ctorHTTP = ["id", "converters", "SkipVerify", "returned"] ∧
@@ -203,8 +204,6 @@ theorem gen_backends_construct_verified :
     Gen.ctorSFTP = ["id", "converters", "SkipVerify", "returned"] ∧
     Gen.ctorGCS = ["id", "converters", "SkipVerify", "returned"] ∧
     Gen.ctorProtocol = ["id", "literal:{…}", "false", "returned"] ∧
-    Gen.ctorFromStorageBody = ["if:skip", "return:c,nil", "if:err!=nil", "return:nil,ChunkInvalid",
-      "if:sum!=id", "return:nil,ChunkInvalid", "return:c,nil"] ∧
     Gen.site_ctor_Local_found = true ∧ Gen.site_ctor_HTTP_found = true ∧ Gen.site_ctor_S3_found = true ∧
     Gen.site_ctor_SFTP_found = true ∧ Gen.site_ctor_GCS_found = true ∧ Gen.site_ctor_Protocol_found = true ∧
     Gen.site_ctor_NewChunkFromStorage_found = true := by
